@@ -92,7 +92,23 @@ def main(tier, write_baseline=False):
         if o["name"] in seen:
             continue
         seen.add(o["name"])
-        run.violation(o["name"], "obligation refuted by %s on path %s" % (o["backend"], " ".join(o["trace"])), solver_output={"model": o["model"], "smt2": (o["smt2"] or "")[:4000]})
+        fi = None
+        if "/structural/" in o["name"]:
+            # the marker-set lemma: replay a numeric default whose repr contains an offending character on the real emitter / parser
+            for dflt in (1e16, -2.5e-07, 3, -3, 2.5):
+                for cell in (("google", True, True), ("rest", True, True), ("numpydoc", True, True)):
+                    ir = domain.make_ir((("float" if isinstance(dflt, float) else "int", dflt, "the {name}"),))
+                    try:
+                        r = contract(cell, ir)
+                    except Exception as ex:
+                        r = [(("raises",), "%s: %s" % (type(ex).__name__, ex), None)]
+                    if r:
+                        fi = {"cell": list(cell), "ir": json.loads(json.dumps(ir)), "what": r[0][1][:300]}
+                        break
+                if fi:
+                    break
+        run.violation(o["name"], "obligation refuted by %s on path %s%s" % (o["backend"], " ".join(o["trace"]), (": " + "; ".join(o.get("notes") or [])) if o.get("notes") else ""),
+                      failing_input=fi, solver_output={"model": o["model"], "smt2": (o["smt2"] or "")[:4000], "notes": o.get("notes")})
     M.report(run, "C01/bounded", fails)
     common.apply_controls(run, tier)
     return run.finish(explanation="PROVED (thin lemmas): the quoting helpers meet their contracts; unquote(quote(s)) == s and quote is idempotent. "
